@@ -165,6 +165,33 @@ def resHeadersEol (b : UInt8) (lfcr : Bool) (c : Conn) : Except Rc (Conn × Bool
       | some (d, _) => .ok ({ c with out := d }, true, false, false)
     else .ok (c, false, false, false)
 
+/-- one header (or continuation) line of a response: start a new pending header, extend the pending one, or process it -/
+def resHeaderLine (uid : Nat) (line : Bytes) (c : Conn) : R :=
+  if isLineFolded line == some false then
+    resFlushHeader c >>? fun c =>
+    let (d, nb) := c.out.peekSet
+    let c := { c with out := d }
+    -- no byte available yet (-1): the header stays pending, as on the request side (S15, repaired in /repo)
+    let folding := match nb with | some b => isFoldingChar b | none => true
+    if !folding then
+      let (c, rc) := processResponseHeader line c
+      if rc != .ok then (c, .error) else (c, .ok)
+    else ({ c with out := { c.out with header := some line } }, .ok)
+  else
+    match c.out.header with
+    | none =>
+      let c := c.modTx uid (fun t => { t with flags := t.flags ||| INVALID_FOLDING })
+      ({ c with out := { c.out with header := some (line.dropWhile isFoldingChar) } }, .ok)
+    | some h =>
+      let hasColon := line.any (· == 0x3a)
+      if hasColon && h.any (· == 0x3a) && c.outTx.resProtocolNumber == PROTOCOL_1_1 then
+        let c := c.modTx uid (fun t => { t with flags := t.flags ||| INVALID_FOLDING })
+        let (c, rc) := processResponseHeader h c
+        if rc != .ok then (c, .error) else
+        ({ c with out := { c.out with header := some (line.drop 1) } }, .ok)
+      else if h.length < MAX_HEADER_FOLDED then ({ c with out := { c.out with header := some (h ++ line) } }, .ok)
+      else (c, .ok)
+
 /-- htp_connp_RES_HEADERS -/
 def resHeadersLoop : Nat → Bool → Conn → R
   | 0, _, c => (c, .error)
@@ -202,32 +229,7 @@ def resHeadersLoop : Nat → Bool → Conn → R
             ({ c with outState := .finalize }, .ok)
         else
           let line := (chomp data).1
-          let r : R :=
-            if isLineFolded line == some false then
-              resFlushHeader c >>? fun c =>
-              let (d, nb) := c.out.peekSet
-              let c := { c with out := d }
-              -- no byte available yet (-1): the header stays pending, as on the request side (S15, repaired in /repo)
-              let folding := match nb with | some b => isFoldingChar b | none => true
-              if !folding then
-                let (c, rc) := processResponseHeader line c
-                if rc != .ok then (c, .error) else (c, .ok)
-              else ({ c with out := { c.out with header := some line } }, .ok)
-            else
-              match c.out.header with
-              | none =>
-                let c := c.modTx uid (fun t => { t with flags := t.flags ||| INVALID_FOLDING })
-                ({ c with out := { c.out with header := some (line.dropWhile isFoldingChar) } }, .ok)
-              | some h =>
-                let hasColon := line.any (· == 0x3a)
-                if hasColon && h.any (· == 0x3a) && c.outTx.resProtocolNumber == PROTOCOL_1_1 then
-                  let c := c.modTx uid (fun t => { t with flags := t.flags ||| INVALID_FOLDING })
-                  let (c, rc) := processResponseHeader h c
-                  if rc != .ok then (c, .error) else
-                  ({ c with out := { c.out with header := some (line.drop 1) } }, .ok)
-                else if h.length < MAX_HEADER_FOLDED then ({ c with out := { c.out with header := some (h ++ line) } }, .ok)
-                else (c, .ok)
-          r >>? fun c => resHeadersLoop fuel lfcr { c with out := c.out.clearBuffer }
+          resHeaderLine uid line c >>? fun c => resHeadersLoop fuel lfcr { c with out := c.out.clearBuffer }
 
 def resHeaders (c : Conn) : R := resHeadersLoop cfg ((c.out.len - c.out.read).toNat + 3) false c
 
